@@ -91,6 +91,7 @@ func (sc *scenario) build(prop string) (*mc.Scenario, error) {
 		switch prop {
 		case "C04":
 			ms.ref = monitor.NewRefinement(prop, sc.Cfg, m0.Clone())
+			ms.ref.Relaxed = sc.Faults > 0
 			w.Monitors = append(w.Monitors, ms.ref)
 		case "C05":
 			li := &monitor.ListIntegrity{Prop: prop, HashID: stk.HashName(sc.Cfg), Cfg: sc.Cfg, CheckOpen: true}
@@ -238,7 +239,7 @@ func (sc *scenario) call(w *mc.World, ms *mons, ps procSpec, s step, prop string
 			err := st.CompactAll(s.Expiry)
 			if ms.ref != nil {
 				ms.ref.SetExpiry(p.ID, nil)
-				if err != nil && err != reftable.ErrLockFailure {
+				if err != nil && err != reftable.ErrLockFailure && sc.Faults == 0 {
 					w.Violate(prop, "ack:unexpected-error@CompactAll:"+errClass(err.Error()), fmt.Sprintf("p%d: CompactAll failed with %q; without I/O faults only lock contention may fail it", p.ID, err))
 				}
 			}
@@ -248,7 +249,7 @@ func (sc *scenario) call(w *mc.World, ms *mons, ps procSpec, s step, prop string
 				return "skip"
 			}
 			ok, err := st.VerifCompactRange(s.I, s.J, nil)
-			if ms.ref != nil && err != nil && err != reftable.ErrLockFailure {
+			if ms.ref != nil && err != nil && err != reftable.ErrLockFailure && sc.Faults == 0 {
 				w.Violate(prop, "ack:unexpected-error@compactRange:"+errClass(err.Error()), fmt.Sprintf("p%d: compactRange failed with %q; without I/O faults only lock contention may fail it", p.ID, err))
 			}
 			return fmt.Sprintf("%v/%s", ok, hx.ErrString(err))
